@@ -1,5 +1,5 @@
 import Drand.Daemon.Dispatch
-namespace Drand.Driver
+namespace Drand.Driver.DispatchD
 open Drand.Daemon
 
 /-- driver state: the DKG node (none before the first `phase`), the beacon phase, and whether the harness has given
@@ -292,4 +292,4 @@ def dispatchStep (s : DispatchState) (f : List String) : DispatchState × String
           else ({ s with bOps := s.bOps + 1 }, bStep ph l r (s.bOps + 1))
       | none => (s, "bad-op")
 
-end Drand.Driver
+end Drand.Driver.DispatchD
